@@ -31,7 +31,7 @@ pub struct Plan {
 fn gen(seed: u64, tier: Tier) -> Plan {
     let mut rng = Rng::new(seed);
     let max_n = if tier == Tier::Quick { 14 } else { 30 };
-    let style = *rng.pick(&["two-forks", "sparse-interior", "sparse-deep", "random", "light-long", "invalid-mid", "equal"]);
+    let style = *rng.pick(&["two-forks", "sparse-interior", "sparse-deep", "random", "light-long", "invalid-mid", "equal", "burnfee-floor"]);
     let mut nodes: Vec<TreeNode> = vec![];
     let mut depth: Vec<u64> = vec![1];
     let healthy_gt = |d: u64| d % 2 == 0;
@@ -43,6 +43,29 @@ fn gen(seed: u64, tier: Tier) -> Plan {
         uid
     };
     match style {
+        // burn fee driven down to single digits by a prefix of blocks hours apart; the two forks then use gaps of
+        // 2, 4 or 8 heartbeats, so that their cumulative burn fees are small integers and exact ties are common:
+        // a strictly longer challenger that carries exactly as much burn fee has to be adopted
+        "burnfee-floor" => {
+            let mut cur = 0u64;
+            let prefix = rng.range(5, 7);
+            for _ in 0..prefix {
+                let d = depth[cur as usize] + 1;
+                cur = push(&mut nodes, &mut depth, cur, healthy_gt(d), 3_000_000 + rng.below(3_000_000), "", 1);
+            }
+            let fork = cur;
+            let a_len = rng.range(1, 2);
+            let mut a = fork;
+            for _ in 0..a_len {
+                let d = depth[a as usize] + 1;
+                a = push(&mut nodes, &mut depth, a, healthy_gt(d), 2000 * *rng.pick(&[1u64, 1, 2]), "", 1);
+            }
+            let mut b = fork;
+            for _ in 0..a_len + 1 {
+                let d = depth[b as usize] + 1;
+                b = push(&mut nodes, &mut depth, b, healthy_gt(d), 2000 * *rng.pick(&[1u64, 2, 4]) + 7, "", 1);
+            }
+        }
         "two-forks" | "light-long" | "equal" | "invalid-mid" | "sparse-interior" | "sparse-deep" => {
             let prefix = rng.below(4);
             let mut cur = 0u64;
